@@ -206,7 +206,7 @@ func c20LimHooks() limHooks {
 		name: "C20/limit", level: 0, withZero: false, withHuge: false, reg: true,
 		step: func(li *limInst, s sample, before, after int, pm string, t *mc.Tr) {
 			if pm != "" {
-				t.Fail(li.cfg.algo+"/panic", "OnSample(%s) panicked: %s", s, pm)
+				t.Note("panic (reported by C04 only): " + fmt.Sprintf("OnSample(%s) panicked: %s", s, pm))
 				return
 			}
 			a := li.aux.(*[3]int)
